@@ -125,6 +125,68 @@ def gen(repo):
     if not front or not erase or not pop or not wp_short:
         raise TranslateError("writePending(): front()/erase(begin, begin + n)/pop_front() were not recognised")
 
+    # ---- updateInterest / modEpoll: the mask computation and the (un)conditional epoll_ctl(MOD) that T3 relies on
+    ui = cxxscan.function_body(esrc, "updateInterest")
+    norm = lambda x: re.sub(r"\s+", " ", x).strip()
+    m_base = re.search(r"std::uint32_t\s+ev\s*=\s*([^;]+);", ui)
+    m_et = re.search(r"if\s*\(\s*([^)]+?)\s*\)\s*\{?\s*ev\s*\|=\s*(\w+)\s*;", ui)
+    m_need = re.search(r"bool\s+needWrite\s*=\s*([^;]+);", ui)
+    m_hs = re.search(r"if\s*\(\s*(s\s*->\s*tlsState\s*==\s*TlsState::\w+)\s*\)\s*\{\s*needWrite\s*=\s*needWrite\s*\|\|\s*([^;]+);\s*\}\s*else\s*\{\s*needWrite\s*=\s*needWrite\s*\|\|\s*([^;]+);\s*\}", ui)
+    m_out = re.search(r"if\s*\(\s*(\w+)\s*\)\s*\{\s*ev\s*\|=\s*(EPOLLOUT)\s*;\s*\}", ui)
+    if not (m_base and m_et and m_need and m_hs and m_out):
+        raise TranslateError("updateInterest(): the mask computation (ev = EPOLLIN; ET flag; needWrite; handshake/else addend; EPOLLOUT) was not recognised")
+    n_ret = len(re.findall(r"\breturn\b", ui))
+    mods = list(re.finditer(r"modEpoll\s*\(\s*s\s*->\s*fd\s*,\s*ev\s*\)", ui))
+    def depth_at(body, pos):
+        d = 0
+        for ch in body[:pos]:
+            if ch == "{":
+                d += 1
+            elif ch == "}":
+                d -= 1
+        return d
+    plain_stmt = [m for m in mods if depth_at(ui, m.start()) == 0 and re.search(r"[;}]\s*$", ui[:m.start()]) and re.match(r"\s*;", ui[m.end():])]
+    cache = re.search(r"if\s*\(\s*ev\s*==\s*s\s*->\s*(\w+)\s*\)\s*\{?\s*return\s*;", ui)
+    if n_ret == 0 and len(mods) == 1 and len(plain_stmt) == 1:
+        ui_skips = False
+    elif cache and len(mods) == 1 and re.search(r"s\s*->\s*%s\s*=\s*ev\s*;" % cache.group(1), ui):
+        ui_skips = True        # a per-session copy of the registered mask: MOD skipped when unchanged (the model follows; T3 does not hold then)
+    else:
+        raise TranslateError("updateInterest(): neither one unconditional `modEpoll(s->fd, ev);` nor a recognisable mask cache (%d return(s), %d modEpoll call(s))" % (n_ret, len(mods)))
+    me = cxxscan.function_body(esrc, "modEpoll")
+    m_me = re.search(r"return\s*::\s*epoll_ctl\s*\(\s*_epollFd\s*,\s*(\w+)\s*,\s*fd\s*,\s*&\s*e\s*\)\s*==\s*0\s*;", me)
+    if not m_me or len(re.findall(r"\breturn\b|\bif\b", me)) != 1 or not re.search(r"e\s*\.\s*events\s*=\s*ev\s*;", me):
+        raise TranslateError("modEpoll(): expected exactly `e.events = ev; ... return ::epoll_ctl(_epollFd, EPOLL_CTL_MOD, fd, &e) == 0;`")
+    ui_sites = []
+    for fn in ("doSend", "writePending", "readAvail", "driveHandshake", "onSession"):
+        ui_sites.append((fn, len(re.findall(r"\bupdateInterest\s*\(\s*s\s*\)", cxxscan.function_body(esrc, fn)))))
+    total_sites = len(re.findall(r"\bupdateInterest\s*\(\s*s\s*\)\s*;", esrc))
+    if total_sites != sum(n for _, n in ui_sites):
+        raise TranslateError("updateInterest(s) is called %d times, %d of them outside doSend/writePending/readAvail/driveHandshake/onSession" % (total_sites, total_sites - sum(n for _, n in ui_sites)))
+
+    # ---- TLS mode and TLS state move together (the model merges them into one field)
+    tls_sites = []
+    for fn in ("onListener", "doConnect", "driveHandshake"):
+        b = cxxscan.function_body(esrc, fn)
+        for m in re.finditer(r"->\s*(tlsMode|tlsState)\s*=\s*(?:TlsMode|TlsState)::(\w+)\s*;", b):
+            tls_sites.append("%s:%s=%s" % (fn, m.group(1), m.group(2)))
+    n_tls_assign = len(re.findall(r"(?:->|\.)\s*(?:tlsMode|tlsState)\s*=[^=]", esrc))
+    if n_tls_assign != len(tls_sites):
+        raise TranslateError("tlsMode/tlsState are assigned %d times, only %d inside onListener/doConnect/driveHandshake" % (n_tls_assign, len(tls_sites)))
+    d_mode = re.search(r"TlsMode\s+tlsMode\s*\{\s*TlsMode::(\w+)\s*\}", esrc)
+    d_state = re.search(r"TlsState\s+tlsState\s*\{\s*TlsState::(\w+)\s*\}", esrc)
+    if not d_mode or not d_state:
+        raise TranslateError("Session::tlsMode / tlsState default initialisers not found")
+
+    # ---- sendAsync (engine) and the Transport-level send paths only delegate
+    sa = cxxscan.function_body(esrc, "sendAsync")
+    sa_calls = re.findall(r"=\s*send\s*\(\s*sid\s*,\s*data\s*,\s*len\s*\)", sa)
+    isrc = read(repo, "include/iora/network/transport_impl.hpp")
+    t_send = re.search(r"Transport::send\s*\(\s*SessionId\s+sid\s*,\s*iora::core::BufferView\s+data\s*\)\s*\{\s*return\s+_impl\s*->\s*engine\s*->\s*(\w+)\s*\(\s*sid\s*,\s*data\.data\(\)\s*,\s*data\.size\(\)\s*\)\s*;\s*\}", isrc)
+    t_async = re.search(r"Transport::sendAsync\s*\([^)]*\)\s*\{\s*_impl\s*->\s*engine\s*->\s*(\w+)\s*\(\s*sid\s*,\s*data\.data\(\)\s*,\s*data\.size\(\)\s*,\s*std::move\s*\(\s*cb\s*\)\s*\)\s*;\s*\}", isrc)
+    if not t_send or not t_async:
+        raise TranslateError("Transport::send / Transport::sendAsync: expected plain delegation to the engine")
+
     t = HEADER % (TYPES + ", " + ENGINE)
     t += "namespace Iora.Gen.TcpSession\n"
     t += "/-- `TransportConfig::maxWriteQueue` default -/\ndef maxWriteQueue : Nat := %d\n" % mwq
@@ -159,5 +221,23 @@ def gen(repo):
     t += "def writePendingEraseTo : List String := %s\n" % _lean_strs([b.strip() for _, b in erase])
     t += "def writePendingPop : List String := %s\n" % _lean_strs(pop)
     t += "def writePendingShortTests : List String := %s\n" % _lean_strs(wp_short)
+    t += "/-- `updateInterest`: true iff it keeps a copy of the registered mask and skips `epoll_ctl(MOD)` when the mask is unchanged; false = exactly one unconditional `modEpoll(s->fd, ev);`, no early return -/\n"
+    t += "def updateInterestSkipsUnchangedMask : Bool := %s\n" % ("true" if ui_skips else "false")
+    t += "/-- `updateInterest`: base mask, [edge-trigger test, flag], initial `needWrite`, the state test with its addend and the addend of the else branch, [EPOLLOUT test, flag] -/\n"
+    t += "def updateInterestBaseMask : String := \"%s\"\n" % norm(m_base.group(1))
+    t += "def updateInterestEdge : List String := %s\n" % _lean_strs([norm(m_et.group(1)), m_et.group(2)])
+    t += "def updateInterestNeedWrite : String := \"%s\"\n" % norm(m_need.group(1))
+    t += "def updateInterestStateSplit : List String := %s\n" % _lean_strs([norm(m_hs.group(1)), norm(m_hs.group(2)), norm(m_hs.group(3))])
+    t += "def updateInterestOut : List String := %s\n" % _lean_strs([m_out.group(1), m_out.group(2)])
+    t += "/-- `modEpoll`: the epoll_ctl operation of its single unconditional call -/\n"
+    t += "def modEpollOp : String := \"%s\"\n" % m_me.group(1)
+    t += "/-- number of `updateInterest(s)` calls per function (no other call sites exist) -/\n"
+    t += "def updateInterestCallSites : List (String × Nat) := [%s]\n" % ", ".join('("%s", %d)' % x for x in ui_sites)
+    t += "/-- every assignment to `Session::tlsMode` / `tlsState` (function:field=value, in source order) and the two default initialisers -/\n"
+    t += "def tlsAssignments : List String := %s\n" % _lean_strs(tls_sites)
+    t += "def tlsDefaults : List String := %s\n" % _lean_strs([d_mode.group(1), d_state.group(1)])
+    t += "/-- `TcpEngine::sendAsync`: number of `send(sid, data, len)` calls; `Transport::send` / `Transport::sendAsync`: the engine function they delegate to -/\n"
+    t += "def sendAsyncSendCalls : Nat := %d\n" % len(sa_calls)
+    t += "def transportSendDelegates : List String := %s\n" % _lean_strs([t_send.group(1), t_async.group(1)])
     t += "end Iora.Gen.TcpSession\n"
     return "IoraModel/Gen/TcpSession.lean", t
